@@ -36,6 +36,16 @@ instance : Monad D where
 
 def D.fail {α : Type} (e : Err) : D α := fun _ => .error e
 
+/-- log-and-continue: an *error* of `m` is replaced by `(h r)` (value and reader state); panics propagate -/
+def D.catchErr {α : Type} (m : D α) (h : Rd → α × Rd) : D α := fun r =>
+  match m r with
+  | .ok x => .ok x
+  | .error .error => .ok (h r)
+  | .error e => .error e
+
+/-- the current reader state -/
+def D.get : D Rd := fun r => .ok (r, r)
+
 /-- `GetBitString`/`getBitString(numBits)`: the next `n` bits; traps for n = 0 -/
 def getBits (n : Nat) : D Bits := fun r =>
   if n = 0 then .error .panic
@@ -103,7 +113,7 @@ def parseBitStringLoop (sizeRange lb : Int) : Nat → Bytes → Nat → D (Bytes
     if rawLength = 0 then pure (accB, accL)
     else do
       parseAlignBits
-      let r ← (fun r => .ok (r, r) : D Rd)
+      let r ← D.get
       let sizes := (rawLength + 7) / 8
       if 8 * sizes > r.len then D.fail .error
       else do
@@ -119,7 +129,7 @@ def parseBitString (extensed : Bool) (lbP ubP : Option Int) : D (Bytes × Nat) :
     let sizes := (n + 7) / 8
     if sizes > 2 then do
       parseAlignBits
-      let r ← (fun r => .ok (r, r) : D Rd)
+      let r ← D.get
       if 8 * sizes > r.len then D.fail .error
       else do
         let b ← getBits n
@@ -127,7 +137,9 @@ def parseBitString (extensed : Bool) (lbP ubP : Option Int) : D (Bytes × Nat) :
     else do
       let b ← getBits n
       pure (bitsToBytes b, n)
-  else fun r => parseBitStringLoop sizeRange lb (r.len + 2) [] 0 r
+  else do
+    let r ← D.get
+    parseBitStringLoop sizeRange lb (r.len + 2) [] 0
 
 def parseOctetStringLoop (sizeRange lb : Int) : Nat → Bytes → D Bytes
   | 0, _ => D.fail .hang
@@ -150,7 +162,9 @@ def parseOctetString (extensed : Bool) (lbP ubP : Option Int) : D Bytes :=
     else do
       let b ← getBits (8 * ub.toNat)
       pure (bitsToBytes b)
-  else fun r => parseOctetStringLoop sizeRange lb (r.len + 2) [] r
+  else do
+    let r ← D.get
+    parseOctetStringLoop sizeRange lb (r.len + 2) []
 
 /-- a uint64 reinterpreted as int64 -/
 def toInt64 (n : Nat) : Int :=
@@ -265,19 +279,7 @@ def decSeqFields (f : Ty → Params → D Val) (rfv : Ty → Val → Res Int) (a
     let optCount' := if fd.params.optional ∧ optCount > 0 then optCount - 1 else optCount
     if skip then decSeqFields f rfv allFields (i + 1) optCount' optBits frest vals
     else
-      let fp : Res Params :=
-        if fd.params.openType then
-          match refIndex allFields fd.params.refField i with
-          | none => err
-          | some k =>
-            match allFields[k]?, vals[k]? with
-            | some rf, some rv =>
-              match rfv rf.ty rv with
-              | .error e => .error e
-              | .ok x => .ok { fd.params with refValue := some x }
-            | _, _ => err
-        else .ok fd.params
-      match fp with
+      match resolveRef rfv allFields vals i fd with
       | .error e => D.fail e
       | .ok fp => do
         let v ← f fd.ty fp
@@ -289,6 +291,98 @@ def findAlt (fields : List Field) (rv : Int) : Option Nat :=
   | some k => some (k + 1)
   | none => none
 
+/-- the extension bits read at the start of parseField: (sizeExt, valueExt); no value-extension bit for slices -/
+def extBits (params : Params) (isSlice : Bool) : D (Bool × Bool) := do
+  let sizeExt ← (if params.sizeExt then do let b ← getBitsValue 1; pure (b != 0) else pure false : D Bool)
+  let valueExt ← (if params.valueExt && !isSlice then do let b ← getBitsValue 1; pure (b != 0) else pure false : D Bool)
+  pure (sizeExt, valueExt)
+
+/-- leaf kinds of parseField -/
+def decLeaf (ty : Ty) (params : Params) (sizeExt valueExt : Bool) : D Val :=
+  match ty with
+  | .bits => do
+    let (b, n) ← parseBitString sizeExt params.sizeLB params.sizeUB
+    pure (.bits b n)
+  | .octs => do
+    let b ← parseOctetString sizeExt params.sizeLB params.sizeUB
+    pure (.octs b)
+  | .str => do
+    let b ← parseOctetString sizeExt params.sizeLB params.sizeUB
+    pure (.str b)
+  | .enum => do
+    let n ← parseEnumerated valueExt params.valueLB params.valueUB
+    pure (.enum n)
+  | .bool => do
+    let b ← getBitsValue 1
+    pure (.bool (b = 1))
+  | .int => do
+    let n ← parseInteger valueExt params.valueLB params.valueUB
+    pure (.int n)
+  | _ => D.fail .error        -- ObjectIdentifier: "Unsupport ObjectIdenfier type"
+
+/-- the element count of `parseSequenceOf` given (lb, sizeRange) -/
+def sliceCountWith (lb sizeRange : Int) : D Nat :=
+  if sizeRange > 1 then
+    -- a failed count read is only logged: the count is then lb; padding already consumed stays consumed
+    D.catchErr (do let n ← parseConstraintValue sizeRange; pure (n + lb.toNat)) (fun r =>
+      let k := 8 - r.pos % 8
+      (lb.toNat, if sizeRange > 255 ∧ r.pos % 8 > 0 ∧ k ≤ r.len then ⟨r.rest.drop k, r.pos + k, r.len - k⟩ else r))
+  else if sizeRange = 1 then pure lb.toNat
+  else do
+    parseAlignBits
+    let b ← takeOctets 1
+    pure (b.headD 0).toNat
+
+def sliceCount (params : Params) (sizeExt : Bool) : D Nat :=
+  let lb : Int := match params.sizeLB with | some l => if l < 65536 then l else 0 | none => 0
+  let sizeRange : Int :=
+    match params.sizeUB with
+    | some u => if ¬ sizeExt ∧ u < 65536 then u - lb + 1 else -1
+    | none => -1
+  sliceCountWith lb sizeRange
+
+def stripSize (params : Params) : Params := { params with sizeExt := false, sizeUB := none, sizeLB := none }
+
+/-- struct case of parseField: SEQUENCE, CHOICE or open type. `f` is parseField on the component types,
+    `rfv` is getReferenceFieldValue, `zero` the Go zero value. -/
+def decStruct (f : Ty → Params → D Val) (rfv : Ty → Val → Res Int) (zero : Ty → Val)
+    (sd : StructDef) (params : Params) (valueExt : Bool) : D Val :=
+  let optCount := (sd.fields.filter (·.params.optional)).length
+  do
+    let optBits ← (if optCount > 0 then getBitsValue optCount else pure 0 : D Nat)
+    let zeros := sd.fields.map fun fd => zero fd.ty
+    if isChoice sd then
+      if params.openType then
+        match params.refValue with
+        | none => D.fail .error
+        | some rv =>
+          match findAlt sd.fields rv with
+          | none => pure (.struct zeros)       -- unknown id: nothing consumed, nil value
+          | some present =>
+            match sd.fields[present]? with
+            | none => D.fail .error
+            | some fd => do
+              let r0 ← D.get
+              let octs ← openTypeOctets (r0.len + 2) []
+              -- the inner value is parsed from its own buffer; what is left there is ignored
+              match f fd.ty fd.params (Rd.ofBytes octs) with
+              | .error e => D.fail e
+              | .ok (v, _) => pure (.struct (setAt (setAt zeros 0 (.int present)) present v))
+      else do
+        -- a failed index read is only logged and leaves present = 0 → error
+        let present ← D.catchErr (getChoiceIndex valueExt params.valueUB) (fun r => (0, r))
+        if present = 0 then D.fail .error
+        else if present ≥ sd.fields.length then D.fail .error
+        else
+          match sd.fields[present]? with
+          | none => D.fail .error
+          | some fd => do
+            let v ← f fd.ty fd.params
+            pure (.struct (setAt (setAt zeros 0 (.int present)) present v))
+    else do
+      let vals ← decSeqFields f rfv sd.fields 0 optCount optBits sd.fields zeros
+      pure (.struct vals)
+
 /-- `parseField(v, pd, params)` for a value of type `ty` -/
 def decField (env : Env) : Nat → Ty → Params → D Val
   | 0, _, _ => D.fail .hang
@@ -296,107 +390,22 @@ def decField (env : Env) : Nat → Ty → Params → D Val
     if r0.len = 0 then .error .error else      -- "sequence truncated"
     match ty with
     | .ptr t =>
-      match decField env fuel t params r0 with
-      | .error e => .error e
-      | .ok (v, r) => .ok (.ptr v, r)
-    | _ =>
-      -- extension bits
-      let m : D Val := do
-        let sizeExt ← (if params.sizeExt then do let b ← getBitsValue 1; pure (b ≠ 0) else pure false : D Bool)
-        let isSlice : Bool := match ty with | .slice _ => true | _ => false
-        let valueExt ← (if params.valueExt && !isSlice then do let b ← getBitsValue 1; pure (b ≠ 0) else pure false : D Bool)
-        match ty with
-        | .bits => do
-          let (b, n) ← parseBitString sizeExt params.sizeLB params.sizeUB
-          pure (.bits b n)
-        | .oid => D.fail .error
-        | .octs => do
-          let b ← parseOctetString sizeExt params.sizeLB params.sizeUB
-          pure (.octs b)
-        | .str => do
-          let b ← parseOctetString sizeExt params.sizeLB params.sizeUB
-          pure (.str b)
-        | .enum => do
-          let n ← parseEnumerated valueExt params.valueLB params.valueUB
-          pure (.enum n)
-        | .bool => do
-          let b ← getBitsValue 1
-          pure (.bool (b = 1))
-        | .int => do
-          let n ← parseInteger valueExt params.valueLB params.valueUB
-          pure (.int n)
-        | .slice t =>
-          -- parseSequenceOf
-          let lb : Int := match params.sizeLB with | some l => if l < 65536 then l else 0 | none => 0
-          let sizeRange : Int :=
-            match params.sizeUB with
-            | some u => if ¬ sizeExt ∧ u < 65536 then u - lb + 1 else -1
-            | none => -1
-          let ep := { params with sizeExt := false, sizeUB := none, sizeLB := none }
-          let cnt : D Nat :=
-            if sizeRange > 1 then fun r =>
-              -- a failed count read is only logged: the count is then lb, the reader unchanged
-              match parseConstraintValue sizeRange r with
-              | .ok (n, r') => .ok (n + lb.toNat, r')
-              | .error .error =>
-                -- the padding consumed by a successful `getBitsValue(alignBits)` stays consumed
-                let k := 8 - r.pos % 8
-                let r' : Rd := if sizeRange > 255 ∧ r.pos % 8 > 0 ∧ k ≤ r.len then ⟨r.rest.drop k, r.pos + k, r.len - k⟩ else r
-                .ok (lb.toNat, r')
-              | .error e => .error e
-            else if sizeRange = 1 then pure lb.toNat
-            else do
-              parseAlignBits
-              let b ← takeOctets 1
-              pure (b.headD 0).toNat
-          do
-            let n ← cnt
-            let vs ← decElems (decField env fuel t ep) n
-            pure (.slice vs)
-        | .struct id =>
-          match env[id]? with
-          | none => D.fail .error
-          | some sd =>
-            let optCount := (sd.fields.filter (·.params.optional)).length
-            do
-              let optBits ← (if optCount > 0 then getBitsValue optCount else pure 0 : D Nat)
-              let zeros := sd.fields.map fun f => zeroVal env fuel f.ty
-              if isChoice sd then
-                if params.openType then
-                  match params.refValue with
-                  | none => D.fail .error
-                  | some rv =>
-                    match findAlt sd.fields rv with
-                    | none => pure (.struct zeros)       -- unknown id: nothing consumed, nil value
-                    | some present =>
-                      match sd.fields[present]? with
-                      | none => D.fail .error
-                      | some fd => do
-                        let octs ← openTypeOctets (r0.len + 2) []
-                        -- the inner value is parsed from its own buffer; what is left there is ignored
-                        match decField env fuel fd.ty fd.params (Rd.ofBytes octs) with
-                        | .error e => D.fail e
-                        | .ok (v, _) => pure (.struct (setAt (setAt zeros 0 (.int present)) present v))
-                else do
-                  -- a failed index read is only logged and leaves present = 0 → error
-                  let present ← (fun r =>
-                    match getChoiceIndex valueExt params.valueUB r with
-                    | .ok x => .ok x
-                    | .error .error => .ok (0, r)
-                    | .error e => .error e : D Nat)
-                  if present = 0 then D.fail .error
-                  else if present ≥ sd.fields.length then D.fail .error
-                  else
-                    match sd.fields[present]? with
-                    | none => D.fail .error
-                    | some fd => do
-                      let v ← decField env fuel fd.ty fd.params
-                      pure (.struct (setAt (setAt zeros 0 (.int present)) present v))
-              else do
-                let vals ← decSeqFields (decField env fuel) (refFieldValue env fuel) sd.fields 0 optCount optBits sd.fields zeros
-                pure (.struct vals)
-        | .ptr _ => D.fail .error
-      m r0
+      (do let v ← decField env fuel t params
+          pure (.ptr v) : D Val) r0
+    | .slice t =>
+      (do let (sizeExt, _) ← extBits params true
+          let n ← sliceCount params sizeExt
+          let vs ← decElems (decField env fuel t (stripSize params)) n
+          pure (.slice vs) : D Val) r0
+    | .struct id =>
+      match env[id]? with
+      | none => .error .error
+      | some sd =>
+        (do let (_, valueExt) ← extBits params false
+            decStruct (decField env fuel) (refFieldValue env fuel) (zeroVal env fuel) sd params valueExt : D Val) r0
+    | leaf =>
+      (do let (sizeExt, valueExt) ← extBits params false
+          decLeaf leaf params sizeExt valueExt : D Val) r0
 
 /-- `aper.UnmarshalWithParams(b, &T{}, params)` -/
 def unmarshal (env : Env) (fuel : Nat) (ty : Ty) (params : Params) (b : Bytes) : Res Val :=
